@@ -1041,6 +1041,17 @@ static int sim_open(const char *path, int flags)
 		errno = e;
 		return -1;
 	}
+	/* the simulated process has a descriptor limit of its own (plan parameter nofile, 0 = none): a descriptor
+	 * that is never closed shows up as EMFILE after a bounded number of opens */
+	{
+		int64_t lim = w.plan.ipar("nofile", 0);
+		if (lim > 0 && (int64_t)w.cur->fds.size() >= lim) {
+			probe(P_OPEN_FAULT);
+			ev("open %s -> -1 EMFILE (%zu descriptors open, limit %lld)", path, w.cur->fds.size(), (long long)lim);
+			errno = EMFILE;
+			return -1;
+		}
+	}
 	std::shared_ptr<FileObj> f = fs_lookup(path);
 	if (!f) {
 		if (flags & O_CREAT) {
